@@ -68,6 +68,12 @@ unsafe impl<'a, T> MatrixRef<T> for MatrixPart<'a, T> {
     }
 
     unsafe fn get_reference_unchecked(&self, row: Row, column: Column) -> &T {
+        #[cfg(feature = "verif-hooks")]
+        crate::verif_hooks::matrix_part_access(
+            row, column, self.rows, self.columns, self.data.len(),
+            self.data.get(row).map(|r| r.len()),
+            self.data.first().map(|r| r.as_ptr() as usize).unwrap_or(0), false,
+        );
         self.data.get_unchecked(row).get_unchecked(column)
     }
 
@@ -92,6 +98,12 @@ unsafe impl<'a, T> MatrixMut<T> for MatrixPart<'a, T> {
     }
 
     unsafe fn get_reference_unchecked_mut(&mut self, row: Row, column: Column) -> &mut T {
+        #[cfg(feature = "verif-hooks")]
+        crate::verif_hooks::matrix_part_access(
+            row, column, self.rows, self.columns, self.data.len(),
+            self.data.get(row).map(|r| r.len()),
+            self.data.first().map(|r| r.as_ptr() as usize).unwrap_or(0), true,
+        );
         self.data.get_unchecked_mut(row).get_unchecked_mut(column)
     }
 }
